@@ -65,6 +65,7 @@ type stats struct {
 	ranges     int
 	jsonAttrs  int
 	jsonBlocks int
+	jsonNames  int
 	evalSkip   bool
 	dur        time.Duration
 	// relexChecked: the token list was checked again after other inputs had been lexed
